@@ -429,6 +429,8 @@ const (
 	actKeFail    = 6  // a key exchange, if one is needed, fails; otherwise as actDeliver
 	actDupReq    = 7  // the request reaches the server twice; the first reply passes
 	actForge     = 8  // a forged datagram with cleartext cookie fields arrives before the genuine reply
+	actTrailRep  = 12 // extension fields appended behind the authenticator of the genuine reply: a cookie field with the request's own cookie, with a random cookie, or two of them
+	actTrailReq  = 13 // placeholder fields appended behind the authenticator of the request on its way to the server
 	actUnsync    = 11 // the reply says the server is not synchronised (or is otherwise not a usable NTP reply) but is properly authenticated under S2C and carries the fresh cookies
 	actKeOdd     = 10 // a key exchange, if one is needed, hands out 1..7 cookies, or eight of another length; otherwise as actDeliver
 	actKeBadSrv  = 9  // a key exchange, if one is needed, succeeds but names a server that is not an IP address; otherwise as actDeliver
@@ -448,6 +450,7 @@ type stepObs struct {
 	openable   bool
 	curKey     int64    // the provider's current key id right after the reply (-1: not asked)
 	forged     [][]byte // cookies of a forged datagram delivered to the client
+	trailing   bool     // fields were appended behind an authenticator
 	late       bool     // the request was found in the relay's queue only after the call had returned
 	strayReqs  int      // further datagrams of the client after its request
 	extra      []string // the replies after the first: [bytes authentic cookies]
@@ -641,19 +644,46 @@ func (e *env) runStep(x *cl, st step, old *[][]byte) stepObs {
 		if act == actReplay && len(*old) == 0 {
 			act = actDropReply
 		}
+		fwdReq := rawReq
+		if act == actTrailReq {
+			// as many 124-byte placeholders as fit behind the authenticator (up to three), else 4-byte ones;
+			// the server must answer what the authenticated part asks for.  (For the SCION listener in a
+			// packet without packet authenticator: the one of the original no longer verifies.)
+			p := append([]byte(nil), o.req...)
+			added := 0
+			for k := int(1 + st.arg%3); k > 0 && len(p)+128 <= nts.MaxPacketLen; k-- {
+				p = append(p, 0x03, 0x04, 0, 128)
+				p = append(p, make([]byte, 124)...)
+				added++
+			}
+			if added == 0 {
+				for len(p)+4 <= nts.MaxPacketLen && added < 12 {
+					p = append(p, 0x03, 0x04, 0, 4)
+					added++
+				}
+			}
+			if len(p)-len(o.req) >= 28 {
+				o.trailing = true
+				fwdReq = p
+				if x.scion {
+					fwdReq = rewrapSCION(p, rawReq, false)
+				}
+			}
+			act = actDeliver
+		}
 		forward := func() {
 			if x.scion {
-				raws, pls := e.toServerSCIONRaw(rawReq)
+				raws, pls := e.toServerSCIONRaw(fwdReq)
 				rawReplies = append(rawReplies, raws...)
 				o.replies = append(o.replies, pls...)
 			} else {
-				r := e.toServer(rawReq)
+				r := e.toServer(fwdReq)
 				rawReplies = append(rawReplies, r...)
 				o.replies = append(o.replies, r...)
 			}
 		}
 		switch act {
-		case actDeliver, actDropReply, actTamper, actReplay, actForge, actUnsync:
+		case actDeliver, actDropReply, actTamper, actReplay, actForge, actUnsync, actTrailRep:
 			o.forwarded = 1
 			forward()
 		case actDupReq:
@@ -679,6 +709,47 @@ func (e *env) runStep(x *cl, st step, old *[][]byte) stepObs {
 		case actDeliver, actDupReq:
 			if len(o.replies) > 0 {
 				o.delivered = rawReplies[0]
+				o.intact = true
+			}
+		case actTrailRep:
+			if len(o.replies) > 0 {
+				// behind the authenticator nothing is authenticated and nothing must be read
+				r := append([]byte(nil), o.replies[0]...)
+				var extra [][]byte
+				var p nts.Packet
+				own, _ := func() ([]byte, error) {
+					if err := nts.DecodePacket(&p, o.req); err != nil {
+						return nil, err
+					}
+					return p.FirstCookie()
+				}()
+				switch st.arg % 3 {
+				case 0:
+					if len(own) == 124 {
+						extra = [][]byte{own}
+					}
+				case 1:
+					c := make([]byte, 124)
+					rand.Read(c)
+					extra = [][]byte{c}
+				case 2:
+					c1, c2 := make([]byte, 124), make([]byte, 124)
+					rand.Read(c1)
+					rand.Read(c2)
+					extra = [][]byte{c1, c2}
+				}
+				for _, c := range extra {
+					if len(r)+128 <= nts.MaxPacketLen {
+						r = append(r, 0x02, 0x04, 0, 128)
+						r = append(r, c...)
+						o.forged = append(o.forged, c)
+						o.trailing = true
+					}
+				}
+				o.delivered = rawReplies[0]
+				if o.trailing {
+					o.delivered = x.forClient(r, rawReq)
+				}
 				o.intact = true
 			}
 		case actUnsync:
@@ -904,6 +975,9 @@ func (e *env) runHist(script []step, overSCION bool) (tagstr, args, outstr strin
 		}
 		if len(o.forged) > 0 {
 			tags["forged"] = true
+		}
+		if o.trailing {
+			tags[fmt.Sprintf("trailing-act%d", st.action)] = true
 		}
 		if st.action == actKeFail && !o.sent && o.noSend == 0 {
 			tags[fmt.Sprintf("kefail-mode%d", st.arg%6)] = true
